@@ -44,10 +44,44 @@ def _contracts():
     return c
 
 
+class _Budget(BaseException):
+    pass
+
+
+def _task_budget(timeout_ms):
+    """wall-clock budget of one task (all its paths): a tree on which a task forks into hundreds of slow paths ends that task
+    undecided instead of holding the check for hours (never reached on the unchanged tree: the slowest task takes < 200 s)"""
+    env = os.environ.get("VERIF_TASK_BUDGET")
+    return int(env) if env else (900 if timeout_ms <= 60000 and os.environ.get("VERIF_TIER_EFFECTIVE", "quick") != "thorough" else 3000)
+
+
 def _worker(job):
     name, src, timeout_ms = job[:3]
     sys.setrecursionlimit(10000)
     t0 = time.time()
+    import signal
+
+    def _alarm(signum, frame):
+        raise _Budget()
+    try:
+        signal.signal(signal.SIGALRM, _alarm)
+        signal.alarm(_task_budget(timeout_ms))
+    except (ValueError, OSError):
+        pass
+    try:
+        return _worker_body(job, t0)
+    except _Budget:
+        return dict(task=name, qualname="?", kind="?", results=[], undecided=[dict(task=name, reason=f"OutOfReach: the task exceeded its time budget of {_task_budget(timeout_ms)} s (too many slow paths on this tree)")],
+                    stats={}, source=None, crash=None, wall=time.time() - t0)
+    finally:
+        try:
+            signal.alarm(0)
+        except (ValueError, OSError):
+            pass
+
+
+def _worker_body(job, t0):
+    name, src, timeout_ms = job[:3]
     try:
         from pyvc import verify
         tasks = {t.name: t for t in _all_tasks()}
@@ -62,6 +96,8 @@ def _worker(job):
         res, und, st = verify.explore(t, src, _contracts(), hooks, timeout_ms=timeout_ms)
         sh = verify.source_hash(src, t.qualname.split("+")[0]) if not t.qualname.startswith("spec:") else None
         return dict(task=name, qualname=t.qualname, kind=t.kind, results=res, undecided=und, stats=st, source=sh, crash=None, wall=time.time() - t0)
+    except _Budget:
+        raise
     except Exception as e:
         if isinstance(e, RecursionError) or "RecursionError" in str(e) or "recursion" in str(e).lower():
             # terms too deep for the Python bindings of the solver: a limit of the tool on this tree, not a verdict and not a crash
@@ -299,6 +335,7 @@ def main(argv=None):
     ap.add_argument("--src")
     a = ap.parse_args(argv)
     pid, tier = a.pid, a.tier if a.tier in ("quick", "thorough") else "quick"
+    os.environ["VERIF_TIER_EFFECTIVE"] = tier            # read by the workers (task budget)
     seed = int(os.environ.get("VERIF_SEED", "0") or 0)
     src = _src_root(a.src)
     if a.replay:
